@@ -28,7 +28,10 @@ def share_sim_oversale(rows_sorted, init_sh=None):
     money): is some sale larger than the holdings / does a whole-number
     reverse split leave a fraction?"""
     bal = collections.defaultdict(Fraction)
-    afs = sorted(set(core.af_id(r["af"])[0] for r in rows_sorted if r.get("af") is not None))
+    # the holders a split for all affiliates applies to: every affiliate with a row of its own
+    # (a blank affiliate cell is the default affiliate, except on the split row itself)
+    afs = sorted(set(core.af_id(r["af"] if r.get("af") is not None else "")[0] for r in rows_sorted
+                     if not (r["act"] == "Split" and r.get("af") is None)))
     if not afs:
         afs = ["default"]
     if init_sh is not None:
@@ -251,11 +254,44 @@ def run(res, ctx):
     corr = []
     n = 400 if tier == "quick" else 5000
     done = 0
-    corpus0 = possible_corpus()
+    first = True
     while done < n:
-        cases = corpus0
-        corpus0 = []
-        for _ in range(min(400, n - done) - len(cases)):
+        cases = []
+        if first:
+            first = False
+            cases += possible_corpus()      # hand-written boundary histories for the first_offence pass
+            # crafted (regression of fix 397da52 and its neighbours): a loss sale, then a split, then the
+            # sale of EXACTLY the whole position inside the 30-day look-ahead of the loss sale - valid,
+            # whatever the ratio; and the same with one share too many - impossible
+            for _ in range(40 if tier == "quick" else 400):
+                d0 = core.BASE_DAY + rng.randint(10, 300)
+                post, pre = rng.choice([("3", "2"), ("1.5", "1"), ("5", "4"), ("2", "1"), ("1", "2"), ("5", "2"), ("1", "4"),
+                                        ("25", "2"), ("1", "8"), ("6", "4"), ("10", "1")])
+                f = Fraction(post) / Fraction(pre)
+                af = rng.choice([None, None, "B"])
+                hold = rng.choice([2, 3, 4, 6, 8, 12, 40, 100, 250]) * Fraction(pre) * rng.choice([1, 1, 2])
+                lossn = rng.choice([1, 1, 2])
+                def _r(day, act, **kw):
+                    x = {"sec": "FOO", "td": d0 + day, "sd": d0 + day, "act": act, "com": None, "cur": None, "rate": None, "af": af}
+                    x.update(kw)
+                    return x
+                try:
+                    whole = core.dtext(hold * f)
+                    over = core.dtext(hold * f + Fraction(1, 1000))
+                except ValueError:
+                    continue
+                rows = [_r(0, "Buy", sh=core.D(int(hold + lossn)), aps=core.D(10)),
+                        _r(40, "Sell", sh=core.D(lossn), aps=core.D(5)),
+                        _r(40 + rng.randint(1, 20), "Split", split=(post, pre)),
+                        _r(40 + rng.randint(21, 30), "Sell", sh=(whole if rng.random() < 0.7 else over, hold * f), aps=core.D(12))]
+                rows[3]["sh"] = (rows[3]["sh"][0], Fraction(rows[3]["sh"][0]))
+                if rng.random() < 0.3:
+                    # a return of capital between the split and the last sale
+                    roc = _r(0, "RoC", aps=core.D(1, 2))
+                    roc["sd"] = roc["td"] = rows[3]["td"]
+                    rows.insert(3, roc)
+                cases.append({"rows": rows, "inits": {}})
+        for _ in range(min(400, n - done)):
             cases.append(gen.gen_case(rng, p_invalid=rng.choice([0.0, 0.05, 0.3]),
                                       p_sfl_spec=rng.choice([0.0, 0.1]), p_roc=0.12, p_split=0.12))
         done += len(cases)
